@@ -717,6 +717,49 @@ def s_lang(F, res):
 _KEEP_L = []
 
 
+def s_hashsrc(F, res):
+    """script_data_hash is present exactly when redeemers are: the presence decision is the ledger library's
+    (`ScriptData::build_for` answers None iff the witness set carries no redeemer and no datum).  So the function that calls it
+    (crate helpers inlined) must hand back that answer - through `map` - on every exit: a `None` of its own making (a `?` on some
+    other lookup, an early return) drops the hash of a transaction that has redeemers."""
+    n = 0
+    for p in sorted(F.fns):
+        f0 = F.fns[p]
+        if f0["crate"] != "tx3_cardano" or is_derive(f0) or "{closure" in p:
+            continue
+        if not any("ScriptData" in (t.get("callee") or "") and (t.get("callee") or "").endswith("build_for") for _, t in mir.calls(f0)):
+            continue
+        if not f0["locals"][0].startswith("std::option::Option<"):
+            continue
+        n += 1
+
+        def want(t, callee):
+            return callee["crate"] == "tx3_cardano" and len(callee["blocks"]) <= 80
+        _KEEP_HS.append(want)
+        f = mir.inline_calls(F, f0, want=want, depth=2)
+        du = mir.DefUse(f)
+        origins = mir.provenance(f, du, {"l": 0, "p": []}, transparent_extra=("std::option::Option::<T>::map",))
+        key = "%s|the hash is absent only where build_for says so" % p
+        other = [o for o in origins if not (o.kind == "call" and "ScriptData" in (o.callee or "") and (o.callee or "").endswith("build_for"))]
+        if other and all(o.kind == "call" and (o.callee or "").endswith("::from_residual") for o in other):
+            # a `?` is fine when what it tests is the redeemers of the witness set themselves (`witness_set.redeemer.as_ref()?`)
+            br = [t for _, t in mir.calls(f) if (t.get("callee") or "").endswith("Try::branch")]
+            def on_redeemers(t):
+                os_ = mir.provenance(f, du, t["args"][0], transparent_extra=("std::option::Option::<T>::as_ref",))
+                return bool(os_) and all(o.kind == "arg" and o.local == 1 and "redeemer" in "".join(str(x) for x in o.proj) for o in os_)
+            if br and all(on_redeemers(t) for t in br):
+                other = []
+        if other:
+            res.add([finding("S-PRESENT", key, where(f0), "%s returns a value that does not come from ScriptData::build_for (%s): the hash can be absent although the witness set carries redeemers (or present although it carries none)" % (p.split("::")[-1], ", ".join(sorted({repr(o) for o in other}))[:200]))])
+        else:
+            res.add([ok("S-PRESENT", key, where(f0), "every exit hands back build_for(..).map(hash)")])
+    res.count("functions deciding the presence of script_data_hash", n)
+    res.floor("functions deciding the presence of script_data_hash", n, 1)
+
+
+_KEEP_HS = []
+
+
 def run(ctx):
     F = ctx.F
     res = Result("C10")
@@ -729,6 +772,7 @@ def run(ctx):
     s_hash(F, res)
     s_prune(F, res)
     s_present(F, res)
+    s_hashsrc(F, res)
     s_sets(F, res)
     s_value(F, res)
     s_lang(F, res)
